@@ -47,6 +47,9 @@ def _base(rng, kind):
             e["lat"] = rng.choice([0.05, 0.5, 2.0])
     cfg = rng.choice([{}, {}, {"build_network_map": True}, {"exclude_pgns": [129029]}])
     status = session.cb_faults(rng, 30)
+    if rng.random() < 0.15:
+        status["plain_callable"] = True
+        status["sync_raise"] = [i for i in range(12) if rng.random() < 0.4]
     recv = session.cb_faults(rng, 30, p_raise=rng.choice([0, 0.2]), p_delay=rng.choice([0, 0.5, 0.9]), delays=(0.01, 0.3, 2.0))
     return {"client": kind, "config": cfg, "script": script, "cb": {"status": status, "recv": recv},
             "knobs": {"min_end": 2.0, "tail": AFTER_CLOSE_S + 5.0, "max_end": 3000.0, "hb": 1.0}}
@@ -117,6 +120,9 @@ def gen(rng, idx, tier):
         else:
             plan["cb"]["status"]["close_at"] = rng.choice([0, 1, 2])
     plan["ops"] = ops
+    ca = plan["cb"]["status"].get("close_at")
+    if ca is not None and plan["cb"]["status"].get("sync_raise"):
+        plan["cb"]["status"]["sync_raise"] = [i for i in plan["cb"]["status"]["sync_raise"] if i != ca]
     return plan
 
 
@@ -148,10 +154,13 @@ def execute(plan):
     o = net.run(plan)
     v, st, nontrivial = evaluate(plan, o)
     status_cfg = (plan.get("cb") or {}).get("status") or {}
-    if status_cfg.get("raise") and not v:
+    if (status_cfg.get("raise") or status_cfg.get("sync_raise")) and not v:
         # K6: an exception raised by the status callback does not affect the client
         p2 = copy.deepcopy(plan)
         p2["cb"]["status"]["raise"] = []
+        for i in p2["cb"]["status"].get("sync_raise") or []:
+            (p2["cb"]["status"].get("delay") or {}).pop(str(i), None)     # a call that failed at once did not wait either
+        p2["cb"]["status"]["sync_raise"] = []
         o2 = net.run(p2)
         a = _externals(o)
         b = _externals(o2)
